@@ -26,10 +26,36 @@ def mirror_rule(run, rid, funcs, pairs, text):
                 run.note(rid, 'one-sided by design in %s: %s' % (f.short, tr), f, s1)
                 continue
             bad.append((s1, s2, r, d))
+        # self-transformations X = f(X) of a role variable need an exact mirror X' = f(X') in the function
+        stmts_all = [s for b in mirror.blocks_of(f.node) for s in b]
+        toks_all = [[mirror._norm(t) for t in mirror.tokens(s)] for s in stmts_all]
+        for s, tk in zip(stmts_all, toks_all):
+            if not (isinstance(s, ast.Assign) and len(s.targets) == 1 and isinstance(s.targets[0], ast.Name)):
+                continue
+            nm = s.targets[0].id
+            if not mirror._has_role(nm, pairs) or nm not in {x.id for x in ast.walk(s.value) if isinstance(x, ast.Name)}:
+                continue
+            sw = mirror.swapped(tk, pairs)
+            if sw == tk:
+                continue
+            if any(sw == t2 for t2 in toks_all):
+                continue
+            if any(s is b1 or s is b2 for b1, b2, r, d in found):
+                continue            # already reported as a near-mirror pair
+            tr = triage.MIRROR.get((f.short, head(s)))
+            if tr:
+                run.note(rid, 'one-sided by design in %s: %s' % (f.short, tr), f, s)
+                continue
+            bad.append((s, s, 0.0, [('missing', ' '.join(sw), '')]))
         if not bad:
             run.ob(rid, '%s::%s' % (f.rel, f.short), True,
                    'every near-mirror statement pair is an exact mirror under the role swap (%d statements compared)' % nb, fn=f)
         for s1, s2, r, d in bad:
+            if s1 is s2:
+                run.ob(rid, '%s::%s::%s' % (f.rel, f.short, head(s1)[:70]), False,
+                       'line %d transforms one side (`%s`) and the function has no mirror statement `%s` for the other side'
+                       % (s1.lineno, head(s1)[:60], d[0][1][:70]), fn=f, node=s1)
+                continue
             run.ob(rid, '%s::%s::%s' % (f.rel, f.short, head(s2)[:70]), False,
                    'lines %d and %d are %.0f%% mirror images under the role swap but differ in: %s'
                    % (s1.lineno, s2.lineno, 100 * r, '; '.join('%s -> %s' % (a or '<nothing>', b or '<nothing>') for t, a, b in d[:3])),
@@ -43,10 +69,15 @@ def names_in(e):
             and x.value.id == 'self'}
 
 
-def dep_closure(fnode, names):
+def dep_closure(fnode, names, control=False):
     """Names that the given names depend on through assignments inside fnode
-    (flow-insensitive def-use closure; comprehension variables included)."""
+    (flow-insensitive def-use closure; comprehension variables included).
+    With control=True an assignment also depends on the tests that guard it."""
     deps = {}
+    gm = None
+    if control:
+        from ..flow import GuardMap as _G
+        gm = _G(fnode)
     for n in ast.walk(fnode):
         tg = []
         val = None
@@ -61,6 +92,10 @@ def dep_closure(fnode, names):
         if val is None:
             continue
         src = names_in(val)
+        if gm is not None and isinstance(n, ast.stmt):
+            for g in gm.chain(n) or ():
+                if g.kind == 'if':
+                    src = src | names_in(g.test)
         for t in tg:
             for x in ast.walk(t):
                 if isinstance(x, ast.Name):
